@@ -497,10 +497,11 @@ class Contract:
 REGISTRY = []
 
 
-def contract(qual, props, name=None, note="", z3_ms=None):
+def contract(qual, props, name=None, note="", z3_ms=None, cvc5_first=False):
     def deco(fn):
         c = Contract(qual, fn, props, name, note)
         c.z3_ms = z3_ms      # per-query z3 budget; string-heavy contracts use a short one and let cvc5 take the unknowns
+        c.cvc5_first = cvc5_first    # obligations go to cvc5 before z3 (z3's sequence solver overruns its timeout on nested substrings)
         REGISTRY.append(c)
         return fn
     return deco
@@ -737,6 +738,7 @@ def run_contract(prog_factory, con, max_paths=20000, budget_s=600):
         prog = prog_factory()
         if getattr(con, "z3_ms", None):
             prog.timeout_ms = con.z3_ms
+        prog.cvc5_first = bool(getattr(con, "cvc5_first", False))
         ctx = Ctx(prog, prefix)
         ctx.cname = con.name
         B = Builder(ctx, con)
